@@ -71,6 +71,9 @@ func main() {
 			continue
 		}
 		atomic.AddInt64(&scnCounter, 1)
+		if *opt == "exhaustive" {
+			exhIdx = i
+		}
 		switch fam {
 		case "gops":
 			genGops(w, r, i, *size*5, *size, *opt != "invalid")
